@@ -64,7 +64,15 @@ EXPLANATION = (
     "on a model expression (a list of tensor names with rename_tensor / atoms, both iteration orders) for seven "
     "configurations (identity, one rename, two defaults swapped, a chain, amplitudes renamed, amplitudes and densities swapped, "
     "a name taken from a later field): every default name incl. t<n>[cc] / p<n> ends up with the name map_default_name "
-    "assigns to it, all at once. R19f: alias flow from every use of a cached method/property whose result is a mutable "
+    "assigns to it, all at once. R19k: simplify is evaluated on a model expression with two terms that are equal up to a "
+    "renaming of contracted indices, once for each order of Expr.terms (sympy orders the arguments by the name strings of the "
+    "generic indices, which wrap around with the counters): the result - which term represents the class - must be the same. "
+    "R19l (cache age): (A) Term.substitute_contracted is evaluated on a model term with two groups of generic indices in both "
+    "age orders - do the lowest names follow the creation age? (B) intermediate_state(2, ph, bra) is evaluated with s_root and "
+    "overlap_precursor looked into and precursor / norm_factor as time-stamped leaves (a cached leaf keeps the stamp of its "
+    "first computation) with cold member caches and with precursor(1, ph, bra, <target indices>) already cached: if the "
+    "relative age of the index groups of a product differs and (A) holds, the text after substitute_contracted depends on "
+    "the cache state; reported under the single key (R19l, misc:cached_member, cache age). R19f: alias flow from every use of a cached method/property whose result is a mutable "
     "container (names, walrus, conditional expressions, reaching definitions) to in-place mutations (mutator methods, item/"
     "attribute stores, augmented assignment, arguments of repository functions that mutate the bound parameter); cached "
     "derivation methods return immutable sympy objects on every evaluated path.")
@@ -78,6 +86,8 @@ ASSUMPTIONS = [
     "method), back out of private/nested helpers only when all callers are known; other calls (sympy, methods of other "
     "objects) are sinks; attributes of self are not followed; set-valued dict entries (d[k] being a set) are not typed as unordered",
     "call-graph closure resolves attribute calls by method name over the whole package (over-approximation)",
+    "R19k models find_compatible_terms as 'the first term of a class represents it'; R19l assumes that sub-results of order 0 "
+    "(norm factors below order 2) carry no generic indices and compares ages, not full texts",
     "R19e explores histories of depth <= 3 with spin-free occupied requests; R19i models inspect.signature/bind/apply_defaults, "
     "functools.wraps and property by reference implementations; R19j models the expression as a list of tensor names "
     "(rename_tensor renames every tensor of that name, atoms lists the names present) for seven configurations",
@@ -2771,6 +2781,166 @@ def r19k(ctx):
               key="representative follows Expr.terms")
 
 
+# ====================================================================== R19l
+# Cache age: a member cache hands out the stored expression with the generic indices it was built with.  (A) By evaluating
+# Term.substitute_contracted on a model term with two groups of contracted indices it is decided whether the lowest names
+# are handed out by the rank (= creation age) of the current generic names; (B) a derivation method is evaluated with the
+# member caches cold and with one sub-result already cached (its indices are older than everything computed now) and the
+# relative age of the index groups that meet in one product is compared.  If the names follow the age (A) and the ages
+# depend on the cache state (B), the text of the result depends on which cached results preceded the request.
+
+def _generic_name(k):
+    base = "ijklmno"
+    return base[k % len(base)] + str(3 + k // len(base))
+
+
+def _naming_follows_age(ctx):
+    """(names the group G receives when it is older than H, ... when it is younger); None if not evaluable"""
+    fn = ctx.model.fn("expr_container:Term.substitute_contracted")
+    key_fn = ctx.model.fn("indices:sort_idx_canonical")
+    out = []
+    for g_first in (True, False):
+        names = [_generic_name(k) for k in range(3)]
+        g_names, h_names = (names[:2], names[2:]) if g_first else (names[1:], names[:1])
+        objs = {}
+
+        def get_symbols(s_, a_, k_):
+            ns = a_[0] if a_ else k_.get("indices")
+            if isinstance(ns, str):
+                ns = _split_names(ns)
+            if not isinstance(ns, (list, tuple)) or not all(isinstance(n, str) for n in ns):
+                return NotImplemented
+            return [objs.setdefault(n, _idx(n)) for n in ns]
+        kx = Symex(ctx.model, inline=lambda q: True, what="sort_idx_canonical")
+
+        def ckey(o):
+            r = kx.run(key_fn, lambda: dict(idx=o))
+            if len(r) != 1 or r[0].kind != "return":
+                raise AnalysisError(f"R19l: sort key of {o.name}: {r}")
+            return tuple(x for x in r[0].value if not isinstance(x, T))
+
+        def args():
+            objs.clear()
+            G = [objs.setdefault(n, _idx(n)) for n in g_names]
+            H = [objs.setdefault(n, _idx(n)) for n in h_names]
+            for o in G + H:
+                o.attrs["dummy_index"] = sym("dummy:" + o.name)
+            me = Obj("expr_container:Term", "term")
+            sy = Obj(None, "term.sympy")
+            sy.attrs["subs"] = lambda s_, a_, k_: sym("substituted")
+            me.attrs.update(contracted=tuple(sorted(G + H, key=ckey)), target=(), sympy=sy, assumptions={})
+            me.__dict__["G"] = G
+            return dict(self=me, return_sympy=False, only_build_sub=True)
+        sx = Symex(ctx.model, inline=lambda q: q in ("indices:get_lowest_avail_indices", "indices:order_substitutions"), what="substitute_contracted",
+                   hooks={"get_symbols": get_symbols}, max_paths=64)
+        holder = {}
+
+        def args2():
+            d = args()
+            holder["G"] = d["self"].G
+            return d
+        outs = sx.run(fn, args2)
+        if len(outs) != 1 or outs[0].kind != "return" or not isinstance(outs[0].value, list):
+            return None
+        sub = {id(o): n for o, n in outs[0].value if isinstance(o, Obj) and isinstance(n, Obj)}
+        out.append(tuple(sub[id(g)].attrs["name"] if id(g) in sub else g.attrs["name"] for g in holder["G"]))
+    return tuple(out)
+
+
+class _AgedLeaves:
+    """member-cache model for the leaves of a derivation: a leaf computed now gets the current time stamp, a leaf found
+    in the cache keeps the stamp of its first computation"""
+
+    def __init__(self, prefilled=()):
+        self.prefilled = tuple(prefilled)
+        self.reset()
+
+    def reset(self):
+        self.clock = 100
+        self.memo = {k: age for age, k in enumerate(self.prefilled)}
+
+    def leaf(self, name, fn, cached):
+        def hook(sx, a, kw):
+            b = sx.bind(fn, a, kw, False, True, True)
+            b.pop("self", None)
+            key = (name, tuple((k, _freeze(v)) for k, v in b.items()))
+            self.clock += 1
+            if cached:
+                age = self.memo.setdefault(key, self.clock)
+            else:
+                age = self.clock
+            return T("leaf", name, key[1], age)
+        return hook
+
+
+def _leaf_orders(value):
+    """for every fully distributed product of the value: leaves (name, arguments) in the order of their age"""
+    v = strip(value, dx.TRANSPARENT_CALLS + ("wicks",), dx.TRANSPARENT_MCALLS, dx.TRANSPARENT_ATTRS)
+    out = {}
+    for t in subterms(v):
+        if t.op == "mul":
+            for c_, fs in expand_products(t):
+                # only sub-results that carry generic contracted indices: wavefunctions of order >= 1, norm factors of order >= 2
+                leaves = sorted({x for f in fs for x in subterms(f) if x.op == "leaf" and
+                                 dict(x.args[1]).get("order", 0) >= (2 if x.args[0] == "norm_factor" else 1)}, key=lambda x: x.args[2])
+                if len(leaves) >= 2:
+                    ident = frozenset((x.args[0], x.args[1]) for x in leaves)
+                    out.setdefault(ident, set()).add(tuple((x.args[0], x.args[1]) for x in leaves))
+    return out
+
+
+def r19l(ctx):
+    rule = "R19l"
+    fn = ctx.model.fn("misc:cached_member")
+    naming = _naming_follows_age(ctx)
+    follows = naming is not None and naming[0] != naming[1]
+    # (B) intermediate_state(2) cold / with the first order bra precursor of the target indices already cached
+    target = IS + ".intermediate_state"
+    args = dict(order=2, space="ph", braket="bra", indices="k5c5")
+    pre = ("precursor", (("order", 1), ("space", "ph"), ("braket", "bra"), ("indices", "k5c5")))
+    results = []
+    for prefilled in ((), (pre,)):
+        aged = _AgedLeaves(prefilled)
+        im = IndexModel()
+        hk = im.hooks()
+        for ref, nm in ((IS + ".precursor", "precursor"), (GS + ".norm_factor", "norm_factor")):
+            f = ctx.model.fn(ref)
+            hk[ref.split(":")[1]] = aged.leaf(nm, f, is_cached(f))
+        hk["expand_S_taylor"] = lambda s_, a_, k_: _taylor(k_.get("order", [x for x in a_ if not isinstance(x, Obj)][0] if [x for x in a_ if not isinstance(x, Obj)] else None),
+                                                          k_.get("min_order", 2), "s")
+        scen = dx.Scenario()
+        sx = dx.make_sx(ctx, "intermediate_state cold/warm", scen, extra_inline={IS + ".s_root", IS + ".overlap_precursor"}, hooks=hk,
+                        max_paths=4096, occurrence=lambda name: False, oracle=dx.nothing_vanishes)
+        base = scen.reset
+
+        def reset(s, base=base, aged=aged, im=im):
+            base(s)
+            aged.reset()
+            im.reset()
+        sx.on_start = reset
+        outs = sx.run(ctx.model.fn(target), lambda: dict(self=DerivEval(ctx).objects(scen)[IS], **args))
+        rets = [o for o in outs if o.kind == "return"]
+        if len(rets) != 1:
+            raise AnalysisError(f"R19l: intermediate_state(2) has {len(rets)} full paths")
+        results.append(_leaf_orders(rets[0].value))
+    cold, warm = results
+    flipped = sorted((sorted(cold[k])[0], sorted(warm[k])[0]) for k in cold if k in warm and cold[k] != warm[k])
+    ctx.floor(rule, "products of intermediate_state(2) in which two sub-results with generic indices meet", len(cold), 1)
+    show_leaf = lambda l: f"{l[0]}({', '.join(str(v) for _, v in l[1])})"      # noqa: E731
+    ex = ""
+    if flipped:
+        c0, w0 = flipped[0]
+        ex = (f"in the product of {' * '.join(show_leaf(l) for l in sorted(c0))} the index groups are created in the order "
+              f"[{' < '.join(show_leaf(l) for l in c0)}] with cold caches and [{' < '.join(show_leaf(l) for l in w0)}] when "
+              "isr.precursor(1, 'ph', 'bra', <target indices>) was requested before")
+    ctx.check(rule, fn, not (follows and flipped), "the text of a derivation result does not depend on the state of the member caches",
+              f"Term.substitute_contracted hands out the lowest names by the creation age of the generic indices (a group of two "
+              f"indices is named {naming[0] if naming else ''} when it is older and {naming[1] if naming else ''} when it is younger than "
+              f"another group) and cached_member returns stored expressions with the indices they were built with: {ex}; {len(flipped)} of "
+              f"{len(cold)} products of intermediate_state(2, 'ph', 'bra') change the relative age of their index groups, so the text after "
+              "substitute_contracted depends on which cached results preceded the request (the value does not)", key="cache age")
+
+
 # ====================================================================== R19f
 # Objects handed out by a cache are shared by all later callers: alias flow from every use of a cached method/property
 # with a mutable result to in-place mutations (mutator methods, item/attribute stores, augmented assignment, passing to
@@ -3002,6 +3172,8 @@ def run(ctx):
         r19j(ctx)
     if ctx.want("R19k"):
         r19k(ctx)
+    if ctx.want("R19l"):
+        r19l(ctx)
 
 
 def run_thorough(ctx):
